@@ -10,6 +10,7 @@ import TantivyModel.Proofs.LazyKey
 import TantivyModel.Proofs.WandHeap
 import TantivyModel.Proofs.BlockWandInterTotal
 import TantivyModel.Proofs.BlockWandTotalG
+import TantivyModel.Proofs.BlockMaxPair
 /-!
 # C06 — Top-K collection returns exactly the best K, with deterministic ties
 
@@ -800,6 +801,29 @@ def gtNat (a b : Nat) : Bool := decide (b < a)
 theorem gtNat_strictWeak : StrictWeak gtNat where
   asymm a b h := by simp [gtNat] at *; omega
   negTrans a b c h1 h2 := by simp [gtNat] at *; omega
+
+open TantivyModel.Bm25Q in
+/-- WHERE `UB_block` COMES FROM: the pair `(fieldnorm_id, term_freq)` the serializer stores for a
+block is the `max_by` of `Bm25Weight::tf_factor` over the block's postings (shape checked by the
+extractor: `Gen.BLOCKWAND_PAIR_IS_ARGMAX_TF_FACTOR`), its tf goes through the one-byte code
+(`encode/decode_block_wand_max_tf`, translated from the source). Evaluated under THE SAME
+normalisation (`norm f = K1·(1 − B + B·fieldnorm(f)/avg)` with the average field length the pair
+was chosen with — one segment, or equal averages) the read-back pair's tf factor bounds the tf
+factor of every posting of the block; with a positive weight that is `UB_block`. Under a DIFFERENT
+average the arg-max can move: known finding `C06:blockmax-pair-wrong-avg-fieldnorm` (S3). -/
+theorem C06_UB_block_same_average (norm : Nat → ℚ) (hnorm : ∀ f, 0 < norm f) (block : List (Nat × BitVec 32))
+    (fstar : Nat) (tstar : BitVec 32)
+    (hmax : maxByQ (fun p : Nat × BitVec 32 => tfFactor (p.2.toNat : ℚ) (norm p.1)) block = some (fstar, tstar)) :
+    ∀ p, p ∈ block → tfFactor (p.2.toNat : ℚ) (norm p.1)
+      ≤ tfFactor ((Gen.Fn.decode_block_wand_max_tf (Gen.Fn.encode_block_wand_max_tf tstar)).toNat : ℚ) (norm fstar) :=
+  block_pair_bounds norm hnorm block fstar tstar hmax
+
+open TantivyModel.Bm25Q in
+/-- three postings (fieldnorm id, tf) under the normalisation `id + 1`: the arg-max is (0, 3) -/
+example : maxByQ (fun p : Nat × BitVec 32 => tfFactor (p.2.toNat : ℚ) ((p.1 : ℚ) + 1)) [(2, 3#32), (0, 3#32), (1, 2#32)]
+    = some (0, 3#32) := by
+  simp only [maxByQ, foldl_cons, foldl_nil, tfFactor]
+  norm_num
 
 /-- `UB_block` is necessary: a block whose stored bound is 0 (what `block_max_score` evaluates to
 for a term of a field indexed without freqs — known finding `C06:nofreq-term-blockmax-zero`) is
